@@ -5,7 +5,7 @@ set -u
 src=$(realpath "$1"); id=$2
 wt=$(mktemp -d /tmp/confirm.XXXXXX)
 git -C /repo worktree add --detach "$wt" HEAD -q || exit 3
-cp "$src/demo.py" "$wt/demo_seeded.py"
+cp "$src/demo.py" "$wt/demo_seeded.py"; mkdir -p "$wt/out"
 cd "$wt"
 timeout 600 /venv/bin/python demo_seeded.py >/dev/null 2>&1; clean=$?
 git apply "$src/patch.diff" || { echo "$id PATCH-DOES-NOT-APPLY"; cd /; git -C /repo worktree remove --force "$wt"; exit 3; }
